@@ -32,7 +32,7 @@ TrInit == IsEvent("Init") /\ LET e == Trace[l] IN
   /\ Report("Setup.Quiescent", Len(e.idle) = 0)
   /\ Report("Setup.Components", e.ncomp = Len(Comps))
   /\ Report("Setup.NoGrants", e.g.ab = 0 /\ e.g.ba = 0)
-  /\ Report("Setup.KnownKind", e.args.kind = "" \/ e.args.kind \in Kinds)
+  /\ Report("Setup.KnownKind", ToSet(e.kinds) \subseteq Kinds)
 
 GrantActs == {"Grant", "GrantExp", "Revoke"}
 Failed(e) == e.res = "blockfail"
@@ -84,6 +84,35 @@ TrDeliver == IsEvent("Deliver") /\ ~Failed(Trace[l]) /\ LET e == Trace[l]  a == 
      /\ ConfD("Components", (e.res = "ok" /\ ~r.gov) =>
                  \A p \in P : ChComps(p) \subseteq r.wr \cup {"bal", "acct"}, <<k, a, {<<p, ChComps(p)>> : p \in P}>>)
 
+\* one transaction with two messages, both signed by a.s only: a.k1 in a.s's own name, a.k2 in a.c's name
+TrDeliver2 == IsEvent("Deliver2") /\ ~Failed(Trace[l]) /\ LET e == Trace[l]  a == e.args IN
+  /\ Assert(a.k1 \in Kinds /\ a.k2 \in Kinds, <<"unknown kind in trace", l, a>>)
+  /\ LET seen == G(e.g)
+         CompChanged(p, i) == e.obs.pre[PName(p)][i] # e.obs.post[PName(p)][i]
+         Counts(p, i) == ~(Comps[i] = "acct" /\ p = a.s)
+         ChComps(p) == {Comps[i] : i \in {j \in DOMAIN Comps : CompChanged(p, j) /\ Counts(p, j)}}
+         Ch(p) == ChComps(p) # {}
+         modelOK == /\ Authorised(seen, a.k1, a.s, a.s, a.s) /\ HandlerOK(a.k1, a.s, a.s, a.s)
+                    /\ Authorised(seen, a.k2, a.s, a.c, a.c) /\ HandlerOK(a.k2, a.s, a.c, a.c)
+     IN
+     /\ grants' = G(e.gpost)
+     /\ owned' = [p \in P |-> IF Ch(p) THEN [owned[p] EXCEPT ![a.k2] = @ + 1] ELSE owned[p]]
+     /\ last' = Act2(a.k1, a.k2, a.s, a.c, a.ord)
+     /\ res' = IF e.res = "ok" THEN "ok" ELSE "fail"
+     /\ nops' = nops + 1
+     /\ Report("Setup.Built", e.cls # "build")
+     /\ Report("Setup.TwoMessageShape", a.s \in Users /\ a.c \in Users /\ a.s # a.c /\ a.ord \in {1, 2} /\ {a.k1, a.k2} \subseteq Plain)
+     /\ Report("Setup.ObservedShape", \A p \in P : Len(e.obs.pre[PName(p)]) = Len(Comps) /\ Len(e.obs.post[PName(p)]) = Len(Comps))
+     /\ Report("Setup.GrantsContinuous", Abs(grants) = seen)
+     \* the whole transaction is rejected and nothing of a.c changes unless a.c fee-granted a.s
+     /\ Report("C03.NoForeignWrite", NoForeignWrite)
+     /\ Report("C03.GrantNeeded", GrantNeeded)
+     /\ Report("C03.GovOnly", GovOnly)
+     /\ ConfD("Result2", (e.res = "ok") = modelOK, <<a, e.res, e.cls, e.cs, e.code, e.g>>)
+     /\ ConfD("FailureIsNoop", FailureIsNoop, <<a, e.res, e.cls, {<<p, ChComps(p)>> : p \in P}>>)
+     /\ ConfD("Writers2", e.res = "ok" => {p \in P : Ch(p)} \subseteq Writers(a.k1, a.s, a.s, a.s) \cup Writers(a.k2, a.s, a.c, a.c),
+              <<a, {<<p, ChComps(p)>> : p \in P}>>)
+
 \* which sdk.Msg types the Paloma modules registered, which of them the router serves, and the driver's own table
 TrRegistry == IsEvent("Registry") /\ LET e == Trace[l]
                                         regs == ToSet(e.reg)  routed == ToSet(e.routed)
@@ -96,10 +125,10 @@ TrRegistry == IsEvent("Registry") /\ LET e == Trace[l]
   /\ Report("Setup.ComponentNames", e.comps = Comps)
 
 \* a block that could not be finalised / committed at all
-TrBlockFail == /\ l <= Len(Trace) /\ Trace[l].act \in GrantActs \cup {"Deliver"} /\ Failed(Trace[l]) /\ l' = l + 1
+TrBlockFail == /\ l <= Len(Trace) /\ Trace[l].act \in GrantActs \cup {"Deliver", "Deliver2"} /\ Failed(Trace[l]) /\ l' = l + 1
                /\ UNCHANGED vars /\ Report("Setup.BlockFailure", FALSE)
 
 TraceInit == Init /\ l = 1
-TraceNext == TrInit \/ TrGrant \/ TrDeliver \/ TrRegistry \/ TrBlockFail
+TraceNext == TrInit \/ TrGrant \/ TrDeliver \/ TrDeliver2 \/ TrRegistry \/ TrBlockFail
 TraceAccepted == TLCGet("stats").diameter - 1 = Len(Trace)
 =============================================================================
